@@ -93,27 +93,6 @@ def r1_constraint_table(ctx):
                 f'{op.name} is materialised with constraint {got}; the TFLite quantization spec requires {want}')
       ctx.check(R, entry['init'].fq.endswith(':init_qsvs') and entry['calibrate'].fq.endswith(':min_max_calibrate'), m.tree, m, f'{op.name} init/calibrate', 'unexpected init/calibrate functions registered')
   ctx.sample(R, sample)
-  # dispatch inside materialize_standard_op: constraint value -> helper
-  mso = ctx.repo.func(f'{MMU}:materialize_standard_op')
-  pairs = {}
-  for n in common.walk_no_nested(mso.node):
-    if isinstance(n, ast.If):
-      node = n
-      while True:
-        t = defuse.norm(node.test)
-        for st in node.body:
-          if isinstance(st, ast.Assign) and isinstance(st.value, ast.Call):
-            pairs[t] = common.call_name(st.value)
-        if len(node.orelse) == 1 and isinstance(node.orelse[0], ast.If):
-          node = node.orelse[0]
-        else:
-          for st in node.orelse:
-            if isinstance(st, ast.Assign) and isinstance(st.value, ast.Call):
-              pairs['else'] = common.call_name(st.value)
-          break
-  ok = any('SAME_AS_INPUT_SCALE' in k and v.endswith('same_as_input_scale') for k, v in pairs.items()) and \
-       any('SAME_AS_OUTPUT_SCALE' in k and v.endswith('same_as_output_scale') for k, v in pairs.items()) and pairs.get('else', '').endswith('no_constraint')
-  ctx.check(R, ok, mso.node, mso, f'dispatch {pairs}', 'constraint values are dispatched to the wrong helper')
 
 
 def r2_fixed_ranges(ctx):
@@ -302,31 +281,88 @@ def r5_to_flatbuffer(ctx):
 
 
 def r6_same_scale_helpers(ctx):
+  """Parameter / statistics routing table of materialize_standard_op.
+
+  Tensors are opaque tokens; the per-tensor materialiser, the operand split and
+  the merge are replaced by routing stubs, so only the *wiring* of the
+  constraint helpers is enumerated: whose parameters each tensor receives and
+  whose statistics are overwritten. Independent of how the helpers are
+  organised."""
   R = 'C04.R6'
-  ctx.rule(R, 'same-as-input: outputs get the INPUT\'s parameters; same-as-output: inputs get the OUTPUT\'s', floor=2)
-  a = ctx.repo.func(f'{MMU}:_materialize_standard_op_with_same_as_input_scale')
-  ctx.instance(R)
-  calls = [c for c in common.calls_in(a.node) if common.call_name(c).endswith('_materialize_op_tensors')]
-  if ctx.check(R, len(calls) == 1, a.node, a, 'outputs materialised once', 'shape changed'):
-    kw = {k.arg: defuse.norm(k.value) for k in calls[0].keywords}
-    args = [defuse.norm(x) for x in calls[0].args]
-    ctx.check(R, args[1:2] == ['output_tensors'] and kw.get('is_inbounding_tensor') == 'False' and kw.get('quant_params') == 'input_tensor_params.consumers[0].parameters', calls[0], a, calls[0],
-              'all outputs must receive the parameters of the (single) input')
-  one = [c for c in common.calls_in(a.node) if common.call_name(c).endswith('_get_single_tensor_params')]
-  ctx.check(R, len(one) == 1 and defuse.norm(one[0].args[0]) == 'input_tensors' and 'is_inbounding_tensor=True' in defuse.norm(one[0]), a.node, a, 'single input', 'the reference tensor must be the single input')
-  b = ctx.repo.func(f'{MMU}:_materialize_standard_op_with_same_as_output_scale')
-  ctx.instance(R)
-  calls = [c for c in common.calls_in(b.node) if common.call_name(c).endswith('_materialize_op_tensors')]
-  if ctx.check(R, len(calls) == 1, b.node, b, 'inputs materialised once', 'shape changed'):
-    kw = {k.arg: defuse.norm(k.value) for k in calls[0].keywords}
-    args = [defuse.norm(x) for x in calls[0].args]
-    ctx.check(R, args[1:2] == ['input_tensors'] and kw.get('is_inbounding_tensor') == 'True' and kw.get('quant_params') == 'quant_params', calls[0], b, calls[0], 'all inputs must receive the output\'s parameters')
-    defs = [defuse.norm(d) for d in defuse.own_assignments(b.node).get('quant_params', []) if d is not None]
-    ctx.check(R, 'output_tensor_params.producer.parameters' in defs, b.node, b, f'quant_params defs {defs}', 'the shared parameters must be those of the output\'s producer entry')
-  one = [c for c in common.calls_in(b.node) if common.call_name(c).endswith('_get_single_tensor_params')]
-  ctx.check(R, len(one) == 1 and defuse.norm(one[0].args[0]) == 'output_tensors' and 'is_inbounding_tensor=False' in defuse.norm(one[0]), b.node, b, 'single output', 'the reference tensor must be the single output')
+  rs = ctx.rule(R, 'routing: same-as-input -> outputs get the INPUT params (and its statistics); same-as-output -> inputs get the OUTPUT params, their statistics stay their own', floor=3)
+  from sa import absint  # pylint: disable=g-import-not-at-top
+  mso = ctx.repo.func(f'{MMU}:materialize_standard_op')
+  OTP, TTP = 'qtyping:OpToTensorParams', 'qtyping:TensorTransformationParams'
+  C = {e.name: e for e in tables.enum(ctx, f'{MMU}:OpQuantConstraint')}
+  rs.exhaustive = True
+  for cname, n_in, n_out in (('SAME_AS_INPUT_SCALE', 1, 1), ('SAME_AS_INPUT_SCALE', 1, 3), ('SAME_AS_OUTPUT_SCALE', 1, 1), ('SAME_AS_OUTPUT_SCALE', 3, 1), ('NO_CONSTRAIN', 2, 2)):
+    ctx.instance(R)
+    ins = [Obj('tok:Tensor', {'name': f'in{i}'}) for i in range(n_in)]
+    outs = [Obj('tok:Tensor', {'name': f'out{i}'}) for i in range(n_out)]
+    qsv = {t.fields['name']: {'min': 'min_' + t.fields['name'], 'max': 'max_' + t.fields['name']} for t in ins + outs}
+    before = {k: dict(v) for k, v in qsv.items()}
+
+    def split(args, kwargs):
+      inb = kwargs.get('is_inbounding_tensor', args[3] if len(args) > 3 else None)
+      return ([], list(ins) if inb else list(outs), [])
+
+    def wrapper(args, kwargs):
+      names = ['tensor', 'is_inbounding_tensor', 'op_info', 'graph_info', 'tensor_name_to_qsv', 'quant_params']
+      b_ = dict(zip(names, args))
+      b_.update(kwargs)
+      t = b_['tensor']
+      qp = b_.get('quant_params')
+      if qp is None:
+        qp = 'PARAMS(' + t.fields['name'] + ')'
+      o = Obj(OTP, {'subgraph_op_id': 0, 'transformations': ['T'], 'parameters': qp})
+      if b_['is_inbounding_tensor']:
+        return Obj(TTP, {'tensor_name': t.fields['name'], 'producer': None, 'consumers': [o]})
+      return Obj(TTP, {'tensor_name': t.fields['name'], 'producer': o, 'consumers': None})
+
+    hooks = {
+        f'{MMU}:_add_non_match_tensors_to_ignored_lists': lambda a, k: ([], []),
+        f'{MMU}:_split_tensors_by_indices': split,
+        f'{MMU}:_get_tensor_transformation_params_wrapper': wrapper,
+        f'{MMU}:_materialize_ignored_tensors': lambda a, k: [],
+        f'{MMU}:_merge_materialized_tensors': lambda a, k: a[0] if a else k.get('tensor_params'),
+        'utils.tfl_flatbuffer_utils:get_tensor_name': lambda a, k: a[0].fields['name'],
+    }
+    it = absint.Interp(ctx.repo, ctx.ev, hooks=hooks)
+    try:
+      it._decisions, it._cursor = [], 0  # pylint: disable=protected-access
+      res = it.call_function(mso, [absint.Opaque('op_info'), absint.Opaque('graph_info'), qsv], {'constraint': C[cname]}, 0)
+    except absint._Raise as r:  # pylint: disable=protected-access
+      ctx.check(R, False, mso.node, mso, f'{cname} {n_in}->{n_out}', f'materialize_standard_op raises {r.exc} on a {n_in}-input/{n_out}-output op with {cname}')
+      continue
+    if not isinstance(res, list) or not all(isinstance(x, Obj) for x in res):
+      raise index.AnalysisError(f'{R}: routing of {cname} could not be extracted ({res!r})')
+    got = {}
+    for x in res:
+      o = x.fields['consumers'][0] if x.fields.get('consumers') else x.fields.get('producer')
+      got[x.fields['tensor_name']] = o.fields['parameters'] if isinstance(o, Obj) else None
+    order = [x.fields['tensor_name'] for x in res]
+    want_order = [t.fields['name'] for t in ins + outs]
+    ctx.check(R, order == want_order, mso.node, mso, f'{cname} {n_in}->{n_out}: order {order}', f'result must list inputs then outputs in operand order, got {order}')
+    label = f'{cname} with {n_in} input(s), {n_out} output(s)'
+    if cname == 'SAME_AS_INPUT_SCALE':
+      want = {t.fields['name']: 'PARAMS(in0)' for t in ins + outs}
+      want_qsv = dict(before)
+      for t in outs:
+        want_qsv[t.fields['name']] = before['in0']
+    elif cname == 'SAME_AS_OUTPUT_SCALE':
+      want = {t.fields['name']: 'PARAMS(out0)' for t in ins + outs}
+      want_qsv = dict(before)
+    else:
+      want = {t.fields['name']: 'PARAMS(' + t.fields['name'] + ')' for t in ins + outs}
+      want_qsv = dict(before)
+    ctx.check(R, got == want, mso.node, mso, f'{label}: params {got}', f'{label}: tensors receive parameters {got}; the spec requires {want}')
+    ctx.check(R, {k: dict(v) for k, v in qsv.items()} == want_qsv, mso.node, mso, f'{label}: statistics',
+              f'{label}: statistics after materialisation are {qsv}; only the OUTPUTS of a same-as-input op may take over the input statistics '
+              '(a tensor\'s statistics may be replaced only by the op that produces it), expected ' + str(want_qsv))
+    if cname == 'SAME_AS_OUTPUT_SCALE' and n_in == 3:
+      ctx.sample(R, {'constraint': cname, 'params': got})
   w = ctx.repo.func(f'{MMU}:_get_tensor_transformation_params_wrapper')
-  g = [n for n in common.walk_no_nested(w.node) if isinstance(n, ast.If) and 'quant_params is None' in ast.unparse(n.test)]
+  g = [n for n in common.walk_no_nested(w.node) if isinstance(n, ast.If) and 'is None' in ast.unparse(n.test) and w.pos_params[5] in ast.unparse(n.test)]
   ctx.check(R, len(g) == 1, w.node, w, 'given params win', 'explicitly supplied parameters must not be recomputed from statistics')
 
 
